@@ -1,0 +1,80 @@
+//go:build verif
+
+package poll
+
+import (
+	"github.com/resonatehq/resonate/internal/aio"
+	"github.com/resonatehq/resonate/internal/metrics"
+)
+
+// Detached is the poll plugin without its TCP listener: the production
+// worker (registry, delivery) and the production HTTP handler, wired over the
+// same channels as New wires them (verification harness).
+type Detached struct {
+	Worker  *PollWorker
+	Handler *PollHandler
+
+	sq         chan *aio.Message
+	connect    chan *connection
+	disconnect chan *connection
+}
+
+func NewDetached(metrics *metrics.Metrics, config *Config) *Detached {
+	sq := make(chan *aio.Message, config.Size)
+	connect := make(chan *connection, config.MaxConnections)
+	disconnect := make(chan *connection, config.MaxConnections)
+
+	counter := metrics.AioConnection.WithLabelValues((&Poll{}).String())
+
+	return &Detached{
+		Handler: &PollHandler{
+			config:     config,
+			metrics:    metrics,
+			connect:    connect,
+			disconnect: disconnect,
+		},
+		Worker: &PollWorker{
+			sq:         sq,
+			metrics:    metrics,
+			counter:    counter,
+			connect:    connect,
+			disconnect: disconnect,
+			connections: connections{
+				max:   config.MaxConnections,
+				cnt:   counter,
+				conns: map[string][]*connection{},
+			},
+		},
+		sq:         sq,
+		connect:    connect,
+		disconnect: disconnect,
+	}
+}
+
+// Enqueue is Poll.Enqueue.
+func (d *Detached) Enqueue(msg *aio.Message) bool {
+	select {
+	case d.sq <- msg:
+		return true
+	default:
+		return false
+	}
+}
+
+// Stop is Poll.Stop without the server: close the submission queue, then (the
+// server being stopped) the connection channels.
+func (d *Detached) Stop() {
+	close(d.sq)
+}
+
+// StopRegistry closes the connect/disconnect channels, as Poll.Stop does once
+// the server has been shut down.
+func (d *Detached) StopRegistry() {
+	close(d.connect)
+	close(d.disconnect)
+}
+
+// Pending reports how many submissions and registry events are queued.
+func (d *Detached) Pending() (sq int, connect int, disconnect int) {
+	return len(d.sq), len(d.connect), len(d.disconnect)
+}
